@@ -129,3 +129,24 @@ add("C19",
     V("handler-reraises", "C19", [(TZP, "        # missing, empty, truncated or otherwise unreadable cache: rebuild it\n        pass\n", "        if current_hash is None:\n            raise\n")], "fire", "C19.R1"),
     V("twin-broad-handler", "C19", [(TZP, "    except (\n        FileNotFoundError,\n        EOFError,\n        pickle.UnpicklingError,\n        AttributeError,\n        ImportError,\n        IndexError,\n        ValueError,\n        TypeError,\n    ):", "    except Exception:")], "silent"),
     )
+
+# ---------------------------------------------------------------- C03
+LOADER = "dateparser/languages/loader.py"
+add("C03",
+    V("callers-list-sorted-in-validation", "C03", [(CONF, "    if len(setting_value) != len(set(setting_value)):", "    setting_value.sort()\n    if len(setting_value) != len(set(setting_value)):")], "fire", "C03.R1"),
+    V("skip-tokens-extended-in-place", "C03", [(DICT, "        self._settings = settings\n        self.info = locale_info\n", "        self._settings = settings\n        self.info = locale_info\n        if settings is not None and \"t\" not in settings.SKIP_TOKENS:\n            settings.SKIP_TOKENS.append(\"t\")\n")], "fire", "C03.R1"),
+    V("languages-kept-by-reference-and-extended", "C03", [(DATE, "        self.languages = list(languages) if languages else None", "        self.languages = languages if languages else None"),
+                                                       (DATE, "            self.languages = map_languages(detected_languages)\n", "            self.languages = map_languages(detected_languages)\n        if self.languages is not None and self._settings.DEFAULT_LANGUAGES:\n            self.languages.extend(self._settings.DEFAULT_LANGUAGES)\n")], "fire", "C03.R1"),
+    V("search-relative-base-not-restored", "C03", [(SEARCH, "        finally:\n            parser._settings.RELATIVE_BASE = original_relative_base\n", "        finally:\n            pass\n")], "fire", "C03.R2"),
+    V("date-order-not-restored-on-error", "C03", [(DATE, "        except (OverflowError, ValueError):\n            self._settings.DATE_ORDER = _order\n            return None", "        except (OverflowError, ValueError):\n            return None")], "fire", "C03.R2"),
+    V("date-order-restore-skipped-for-overflow", "C03", [(DATE, "        except (OverflowError, ValueError):\n            self._settings.DATE_ORDER = _order\n            return None", "        except ValueError:\n            self._settings.DATE_ORDER = _order\n            return None")], "fire", "C03.R2"),
+    V("new-temporary-override", "C03", [(DP, "        date_obj, period = parse_method(date_string, settings=settings, tz=ptz)\n", "        if ptz:\n            settings.RETURN_AS_TIMEZONE_AWARE = True\n        date_obj, period = parse_method(date_string, settings=settings, tz=ptz)\n")], "fire", "C03.R2"),
+    V("cache-cleared-by-reader", "C03", [(DICT, "        regex = self._get_split_regex_cache()\n", "        if len(self._split_regex_cache) > 50:\n            self._split_regex_cache.clear()\n        regex = self._get_split_regex_cache()\n")], "fire", "C03.R3a"),
+    V("cache-keyed-without-settings-hash", "C03", [(DICT, "        return self._split_regex_cache[self._settings.registry_key][self.info[\"name\"]]", "        return self._split_regex_cache[\"default\"][self.info[\"name\"]]")], "fire", "C03.R3b"),
+    V("eviction-may-remove-current-key", "C03", [(DICT, "            for key in list(cache.keys()):\n                if key != self._settings.registry_key:\n                    cache.pop(key)\n                    break\n", "            cache.pop(list(cache.keys())[0])\n")], "fire", "C03.R3c"),
+    V("hash-ignores-a-setting", "C03", [(CONF, 'keys = sorted(["%s-%s" % (key, str(settings[key])) for key in settings])', 'keys = sorted(["%s-%s" % (key, str(settings[key])) for key in settings if key != "SKIP_TOKENS"])')], "fire", "C03.R3d"),
+    V("message-joins-a-set", "C03", [(LOADER, '", ".join(map(repr, sorted(unsupported_languages)))', '", ".join(map(repr, unsupported_languages))')], "fire", "C03.R4"),
+    V("twin-finally-restore", "C03", [(DATE, "            self._settings.DATE_ORDER = _order\n            return DateData(\n                date_obj=date_obj,\n                period=period,\n            )\n        except (OverflowError, ValueError):\n            self._settings.DATE_ORDER = _order\n            return None",
+                                       "            return DateData(\n                date_obj=date_obj,\n                period=period,\n            )\n        except (OverflowError, ValueError):\n            return None\n        finally:\n            self._settings.DATE_ORDER = _order")], "silent"),
+    V("twin-eviction-generator", "C03", [(DICT, "            for key in list(cache.keys()):\n                if key != self._settings.registry_key:\n                    cache.pop(key)\n                    break\n", "            cache.pop(next(k for k in cache if k != self._settings.registry_key))\n")], "silent"),
+    )
